@@ -240,6 +240,15 @@ def pollRecvTrailers (S : Src σ) (H : Hdr) (st : St σ) : Res × St σ :=
   | some enc => trailersTail S H { st with trailers := none } enc
   | none => trailersFirst S H st
 
+/-- `RequestStream::poll_recv_trailers` as a whole, after the repair "recv_trailers answers an error
+    instead of panicking while a DATA payload is outstanding": `if self.stream.has_data()` — the body
+    has not been read to its end (`recv_data` has not answered `None`, or it failed inside a DATA
+    frame) — the call answers `StreamError { H3_FRAME_UNEXPECTED }` and touches nothing; otherwise
+    the function above (`pollRecvTrailers` = everything behind that guard).  In every state of the
+    documented pattern `has_data()` is false before `recv_trailers`, so there the two agree. -/
+def pollRecvTrailersG (S : Src σ) (H : Hdr) (st : St σ) : Res × St σ :=
+  if S.hasData st.src then (.errStream CODE_H3_FRAME_UNEXPECTED, st) else pollRecvTrailers S H st
+
 /-! ### The documented call pattern
 
 `resolve_request` / `recv_response`; then `recv_data` until it answers `None`; then
